@@ -1,6 +1,9 @@
 // Native probe for C03: parse -> str -> parse again -> compare, for update expressions of all operator pairs, with the
 // REAL library.  Keys starting with "kf." demonstrate recorded known findings and are not counted as new failures.
 #include "utap/utap.h"
+#include "utap/property.h"
+#include <sys/wait.h>
+#include <unistd.h>
 
 #include <iostream>
 #include <map>
@@ -63,6 +66,35 @@ int main()
     note("assignment-right-nested.roundtrip", roundtrip("r = a = b", &pr) && roundtrip("r = (a += b)", &pr));
     note("kf.assignment-as-left-operand-of-assignment", roundtrip("(r = a) = b", &pr));
     note("kf.inline-if-as-left-operand-of-assignment", roundtrip("(p ? a : b) = c", &pr));
+    // SMC queries: parse -> str -> parse -> str must be a fixpoint and must not crash (checked in a child process)
+    {
+        const char* queries[] = {"Pr[<=10](<> a > 1)", "Pr[<=10; 100]([] a > 1)", "Pr[#<=5](<> p)", "Pr[<=10](<> a > 1) >= 0.5", "Pr[<=10]([] p) <= 0.25",
+                                 "Pr[<=10](p U a > 1)", "E[<=10; 50](max: a)", "E[<=10; 50](min: a + b)"};
+        for (const char* q : queries) {
+            std::cout.flush();
+            pid_t pid = fork();
+            if (pid == 0) {
+                auto doc = std::make_unique<Document>();
+                parse_XTA("int a; int b; bool p;\nprocess P() { state s0; init s0; }\nsystem P;\n", doc.get(), true);
+                TigaPropertyBuilder pb(*doc);
+                int rc = 0;
+                try {
+                    if (parseProperty(q, &pb) != 0 || !doc->get_errors().empty() || pb.getProperties().empty()) _exit(3);
+                    std::string s1 = pb.getProperties().back().intermediate.str();
+                    TigaPropertyBuilder pb2(*doc);
+                    if (parseProperty(s1.c_str(), &pb2) != 0 || !doc->get_errors().empty() || pb2.getProperties().empty()) { std::cerr << "query " << q << " printed as " << s1 << " does not parse\n"; _exit(4); }
+                    std::string s2 = pb2.getProperties().back().intermediate.str();
+                    if (s1 != s2 || !pb.getProperties().back().intermediate.equal(pb2.getProperties().back().intermediate)) { std::cerr << "query " << q << ": " << s1 << " vs " << s2 << "\n"; rc = 5; }
+                } catch (...) { rc = 6; }
+                _exit(rc);
+            }
+            int st = 0;
+            waitpid(pid, &st, 0);
+            bool ok = WIFEXITED(st) && WEXITSTATUS(st) == 0;
+            if (!ok) std::cerr << "query round trip fails: " << q << " (status " << (WIFEXITED(st) ? WEXITSTATUS(st) : -1) << ")\n";
+            note("smc-queries.print-parse-roundtrip-without-crash", ok);
+        }
+    }
     std::cout << "{";
     bool first = true;
     for (auto& kv : res) { std::cout << (first ? "" : ", ") << "\"" << kv.first << "\": " << (kv.second ? "true" : "false"); first = false; }
